@@ -432,8 +432,9 @@ class ExtraCoords(ExtraCoordsABC):
             return self._getitem_lookup_tables(item)
 
         # If we get here this object is empty, so just return an empty extra coords
-        # This is done to simplify the slicing in NDCube
-        return self
+        # This is done to simplify the slicing in NDCube.
+        # A new object, so that the one attached to this cube stays attached to it.
+        return type(self)()
 
     @property
     def dropped_world_dimensions(self):
